@@ -44,7 +44,9 @@ CLAIMED["C11"] = dict(
         "(harness/pytrans3.py -> Mimic/Extracted/HandlersCode.lean: effects as an event list, exceptions carrying the object state, object aliasing, "
         "async-generator iteration with break) and proved to be the model's steps for every connection state and cursor, raising ones included "
         "(fetch_is_code, reset_is_code, close_is_code, prepare_is_code); code_fetches_in_order states the property on the code's own bytes for every "
-        "sequence of fetch sizes; the statement-id space is the extracted _MAX_PREPARED_STMT_ID (stmt_id_space).",
+        "sequence of fetch sizes; the statement-id space is the extracted _MAX_PREPARED_STMT_ID (stmt_id_space); independence on the code itself: a statement "
+        "command naming k leaves every registry entry j != k untouched in every outcome (code_statement_commands_touch_only_their_statement) and "
+        "COM_QUERY / PING / DEBUG / INIT_DB / FIELD_LIST leave the whole registry as it was (code_unrelated_commands_leave_cursors).",
    note=TB + "Rows are opaque identifiers in the model (their encoding is C05). Async-generator finalisation by the interpreter is not modelled.",
    design="DESIGN.md section 4, C11")
 CLAIMED["C12"] = dict(
@@ -201,7 +203,7 @@ CLAIMED["C03"] = dict(
         "a whole COM_QUERY exchange is stated on the code (code_query_exchange), one iteration writes the handler's output, one ERR exactly on failure and the sequence "
         "reset (command_step_is_code), and for EVERY packet list the generated loop ends only by COM_QUIT, ignores what follows it, composes over concatenation, resets "
         "the sequence after every command and never retracts what was written (code_loop_ends_only_by_quit, code_loop_ignores_after_quit, code_loop_composes, "
-        "code_every_command_resets_sequence, code_nothing_written_is_retracted - the last one assumes the same of the untranslated handle_change_user).",
+        "code_every_command_resets_sequence, code_nothing_written_is_retracted, code_capabilities_constant - the last two assume the same of the untranslated handle_change_user).",
    note=TB + "Modelled, not verified: asyncio (A1-A4 of DESIGN.md); the 32 KiB threshold flush is abstracted (responses smaller than the buffer); sequence numbers are checked by the oracle, not in Lean.",
    design="DESIGN.md section 4, C03")
 
